@@ -185,6 +185,18 @@ def op_reconfigure(rng, src):
             lex.add_keywords({'FOOBAR': T.Keyword, 'ZORK': T.Keyword.DML,
                               'SELECT': T.Name})
             sqlparse.parse('foobar zork select')
+        elif x < 0.75:
+            # rules replaced on the initialised lexer, nothing else touched
+            # (no clear(), no add_keywords())
+            from sqlparse import keywords as kwmod
+            lex.set_SQL_REGEX(
+                [(r'\w+', T.Name), (r'<=>', T.Operator.Comparison)]
+                + (list(kwmod.SQL_REGEX) if rng.random() < 0.5
+                   else [(r'\s+', T.Whitespace)]))
+            try:
+                sqlparse.format('select a <=> b from t', reindent=True)
+            except Exception:
+                pass
         else:
             lex.clear()
             lex.set_SQL_REGEX([(r'\w+', T.Name), (r'\s+', T.Whitespace),
